@@ -73,7 +73,9 @@ func (c *Chan[T]) canSend(me *G) bool {
 	if len(c.buf) < c.cap {
 		return true
 	}
-	return c.liveReceiver(me) != nil
+	// direct hand-off to a parked receiver is only possible with an empty
+	// buffer (otherwise that receiver is about to take the buffered value)
+	return len(c.buf) == 0 && c.liveReceiver(me) != nil
 }
 
 func (c *Chan[T]) liveSender(me *G) *waiter[T] {
